@@ -4,10 +4,14 @@
     The anchoring of [last_token] in the *final* token stream and the missing-symbol/virtual
     token pairing depend on "no error is recorded while a checkpoint that is later rolled back
     is live"; the model run monitors exactly that ([g_err_ok]) on every input of the check,
-    and the check's oracle tests the full statement on the implementation's output. *)
+    and the check's oracle tests the full statement on the implementation's output.
+    For macro-free texts (release profile) [C09_macro_free_error_order] proves the ordering clause
+    outright: the error offsets are a non-decreasing chain inside the text, and every kind is one of
+    the six user-level kinds of open code - none of the 'missing expected' kinds, so the pairing
+    clauses have no instance there (corollary of the C11 simulation). *)
 From Coq Require Import NArith List.
 From SasLexer Require Import Gen.TokenType Gen.ErrorKind Gen.Channel Model.Base Model.Core
-     Model.Lexer3 Proofs.Generic Proofs.LexGeneric.
+     Model.Lexer3 Spec.RefLex Proofs.Generic Proofs.LexGeneric Proofs.RefLexErrors Proofs.RefLexTiling Proofs.OcBase Proofs.OcWhole Proofs.OcAll Proofs.MacroFree.
 Import ListNotations.
 Open Scope N_scope.
 
@@ -25,3 +29,13 @@ Example c09_example :
   map (fun e => (ek_code (e_kind e), e_byte e, e_last e))
       (lr_errors (lex (mkCfg true false) [37; 108; 101; 116; 32; 97; 32; 49; 59])) = [(1008, 7, Some 3)].
 Proof. vm_compute. reflexivity. Qed.
+
+(** macro-free texts: errors in source order, inside the text, user-level kinds only;
+    [chain lo hi xs] = lo <= x1 <= x2 <= ... <= hi *)
+Theorem C09_macro_free_error_order : forall (msep : bool) (src : list char),
+  macro_free (body_of src) = true ->
+  let errs := lr_errors (lex (mkCfg false msep) src) in
+  let '(bb, text) := match src with c :: r => if c =? 65279 then (utf8_len c, r) else (0, src) | [] => (0, src) end in
+  chain bb (bb + blen text) (map e_byte errs) /\ Forall (fun e => In (e_kind e) USER_ERRS) errs.
+Proof. exact mf_C09_macro_free_error_order. Qed.
+Print Assumptions C09_macro_free_error_order.
